@@ -532,6 +532,11 @@ func (b *Buffer) cleanup() {
 			go func() {
 				defer timer.Stop() // just in case, ensure the timer gets stopped
 				defer func() {
+					// the re-broadcast must not be lost if it races with the cleanup goroutine going to sleep, so
+					// the cond's locker is held for it (lock order: b.mutex then mutex, as in the cleanup func)
+					b.mutex.Lock()
+					defer b.mutex.Unlock()
+
 					// lock on the mutex, so that the timer removal and broadcast checking / performing is synced
 					mutex.Lock()
 					verifPoint("buf.timer.locked", b, 0)
